@@ -65,6 +65,11 @@ ErrChkC(ev, expErr, cat) ==
   ELSE Chk(ev.err = expErr, cat, expErr, ev.err)
 ErrChk(ev, expErr) == ErrChkC(ev, expErr, "C01:error-result")
 
+\* a mismatch that violates two properties is reported under the one the running
+\* check is about (environment variable PROP), else under the first
+Prop == IF "PROP" \in DOMAIN IOEnv THEN IOEnv.PROP ELSE ""
+Cat2(a, b) == IF Len(b) >= 3 /\ SubSeq(b, 1, 3) = Prop THEN b ELSE a
+
 Snap(s) == IsOpen(s) /\ stores[s].ro
 CatFor(s, base) == IF Snap(s) THEN "C04:" \o base ELSE base
 
@@ -339,7 +344,7 @@ DoRevert(ev) ==
                     \o Chk(ev.io.w = <<>>, "C09:revert-wrote", <<>>, ev.io.w)
                     \o (IF expErr THEN <<>>
                         ELSE IF stores[s].ro
-                        THEN Chk(ev.io.t = <<>>, "C04:snapshot-revert-truncated", <<>>, ev.io.t)
+                        THEN Chk(ev.io.t = <<>>, Cat2("C04:snapshot-revert-truncated", "C09:snapshot-revert-truncated"), <<>>, ev.io.t)
                         ELSE Chk(ev.io.t = <<top.end>>, "C08:truncate-position", <<top.end>>, ev.io.t)
                              \o Chk(ev.pos = top.end, "C08:size-after-revert", top.end, ev.pos)))
 
